@@ -26,7 +26,7 @@ def run(ctx: Ctx):
     import_amisc()
     rng = ctx.rng
     ctx.rule = ('components with 1-4 inputs, 0-2 ignored model-fidelity dims, 1-3 outputs, knots/level 1-3, random domain location and '
-                'width (1e-6..1e6), random input/output normalisations (minmax, linear, zscore), random admissible index sets reached in '
+                'width (1e-9..1e6), random input/output normalisations (minmax, linear, zscore), random admissible index sets reached in '
                 'random order; polynomial models (integer coefficients in unit coordinates) whose monomials are each resolvable by some '
                 'index of the set in use; train and test mode; evaluation on nodes, inside and beyond the domain; reference = exact '
                 'polynomial value (Fractions); non-trivial = at least 3 active indices')
@@ -37,6 +37,10 @@ def run(ctx: Ctx):
         levels = [rng.randint(1, 3 if nx == 1 else 2 if nx <= 3 else 1) for _ in range(nx)]
         domains = [rand_domain(rng) for _ in range(nx)]
         norms = rand_norms(rng, nx, ny) if rng.random() < 0.6 else None
+        if i in (1, 2):      # stratified: an un-normalised input whose whole domain is narrower than 1e-8 in absolute units (a gap in metres next to
+            nx = max(nx, 2); levels = (levels + [1, 1])[:nx]; kpl = min(kpl, 2)      # a load in newtons); nothing may treat such a grid as a single node
+            domains = ([(1e-9, 3e-9)] if i == 1 else [(0.0, 1e-9)]) + [(100.0, 400.0)] + [rand_domain(rng) for _ in range(nx - 2)]
+            norms = None
         comp, terms = p_exact.build_poly_component(rng, nx, na, ny, levels, kpl, domains, norms)
         mx = (2,) * na + tuple(levels)
         order = p_exact.random_order(rng, mx, rng.randint(1, 8 if nx <= 2 else 5))
